@@ -295,8 +295,14 @@ class PaginationBorders(Contract):
             return MatrixObj(ln, c0, lambda rr, cc, lg=lg: seq_view(st, lg(rr))[1](cc))
         mt, mb = as_matrix(top), as_matrix(bot)
         gm = lambda x, mod, full: If(mod == full, x, x % mod)
-        cl["C07.top_edges"] = Implies(v["h"] > 0, ForAll([r, col], Implies(inrange, mt.cell(gm(r, mt.rows, v["h"]), gm(col, mt.cols, v["w"])) == sp["top"](r, col))))
-        cl["C07.bottom_edges"] = Implies(v["h"] > 0, ForAll([r, col], Implies(inrange, mb.cell(gm(r, mb.rows, v["h"]), gm(col, mb.cols, v["w"])) == sp["bottom"](r, col))))
+        colr = And(0 <= col, col < v["w"])
+        tcell = lambda rr: mt.cell(gm(rr, mt.rows, v["h"]), gm(col, mt.cols, v["w"]))
+        bcell = lambda rr: mb.cell(gm(rr, mb.rows, v["h"]), gm(col, mb.cols, v["w"]))
+        # one obligation per region keeps every query small (row 0 / the other rows; last row / the other rows)
+        cl["C07.top_edges.first_row"] = Implies(v["h"] > 0, ForAll([col], Implies(colr, tcell(IntVal(0)) == sp["top"](IntVal(0), col))))
+        cl["C07.top_edges.other_rows_keep_user_border"] = Implies(v["h"] > 0, ForAll([r, col], Implies(And(inrange, r >= 1), tcell(r) == sp["top"](r, col))))
+        cl["C07.bottom_edges.last_row"] = Implies(v["h"] > 0, ForAll([col], Implies(colr, bcell(v["h"] - 1) == sp["bottom"](v["h"] - 1, col))))
+        cl["C07.bottom_edges.other_rows_keep_user_border"] = Implies(v["h"] > 0, ForAll([r, col], Implies(And(inrange, r < v["h"] - 1), bcell(r) == sp["bottom"](r, col))))
         cl["border_first_last_not_broadcast_to_all_rows"] = Implies(v["h"] > 0, z3.BoolVal(res.fields["border_first"] is None and res.fields["border_last"] is None))
         tfv = res.fields.get("text_font")
         sv = seq_view(st, tfv) if tfv is not None else None
